@@ -28,31 +28,14 @@ ASSUMPTIONS = [
 ]
 
 BASE = dict(after=True, invoke=True, raising_guards=True, nested_builtins=True, null_transitions=True)
-# Shapes belonging to open findings are excluded from the main campaign (and counted);
-# each has its own probe campaign that generates exactly that shape.
-MAIN_EXCLUDE: list = []
-PROBES: dict = {}
-
-
 def _profiles():
     from .. import findings
 
-    open_tags = [f.tag for f in findings.open_for(PROPERTY)]
-    excl = []
-    probes = {}
-    for tag in open_tags:
-        # tag pattern is "*|<problem>|<class>|*"; the class is what the generator can exclude
-        parts = tag.split("|")
-        if len(parts) >= 3 and parts[2] not in ("*", ""):
-            cls = parts[2]
-            if cls not in excl:
-                excl.append(cls)
-                probes["probe:" + cls] = cls
-    return excl, probes
+    return findings.main_and_probe_profiles(PROPERTY, BASE)
 
 
 def plan(tier):
-    excl, probes = _profiles()
+    main, probes = _profiles()
     n = 6000 if tier == "quick" else 120000
     out = [{"name": "main", "examples": n}]
     for name in probes:
@@ -61,12 +44,8 @@ def plan(tier):
 
 
 def strategy(tier, campaign):
-    excl, probes = _profiles()
-    if campaign == "main":
-        prof = gen.profile(exclude_classes=excl, **BASE)
-    else:
-        cls = probes[campaign]
-        prof = gen.profile(exclude_classes=[c for c in excl if c != cls], class_weights={cls: 12}, **BASE)
+    main, probes = _profiles()
+    prof = gen.profile(**(main if campaign == "main" else probes[campaign]))
     return st.fixed_dictionaries(
         {
             "spec": gen.machine_specs(prof),
